@@ -1,15 +1,19 @@
 """C30 (partial) - complex-step-safe helpers agree with NumPy and differentiate exactly.
 
-Spec: spec/mech/CsSafe.tla.  TLC enumerates integer points and perturbation directions for cs_safe.abs (every sign class
-incl. the kink, scalar and array arguments), cs_safe.norm (Pythagorean vectors / matrices, axis None / 0 / 1) and
-cs_safe.arctan2 (all four quadrants and the four half-axes), checks the laws (evenness, Euler / Cauchy-Schwarz, radial /
-tangential / homogeneity identities) and exports the exact rational directional derivative.  Replay: the helper is called
-at p + i*h*dp with h = 1e-40; the real part must equal NumPy's function at p exactly, imag/h the spec's derivative (1e-12).
+Spec: spec/mech/CsSafe.tla.  TLC enumerates integer points and perturbation directions (positive, zero, negative) for
+cs_safe.abs (every sign class incl. the kink, points scaled by 10^e down to real parts far below the step; scalar, 0-d,
+1-D, 2-D, strided, real / integer arguments), cs_safe.norm (Pythagorean vectors / matrices incl. all-zero arrays, rows and
+columns, axis None / 0 / 1 / negative) and cs_safe.arctan2 (four quadrants, four half-axes, the origin for real arguments),
+checks the laws (evenness, exact difference quotient, homogeneity, Euler / Cauchy-Schwarz, radial / tangential identities)
+and exports the exact rational ONE-SIDED DIRECTIONAL derivative (|dx| resp. ||dx|| at a kink).  Replay: the helper is
+called at p + i*h*dp with h = 1e-40; the real part must equal NumPy's function at p exactly, imag/h the spec's value (1e-12).
 
-jax smooth helpers (act_tanh, smooth_max/min/abs/round, ks_max/min): only identities that are exactly rational are
-specified - tanh is an uninterpreted odd function except tanh(0) = 0 and |t| >= 32 -> +-1; TLC proves each exported
-identity independent of the uninterpreted value and exports the rational value of the combination and, at the exact
-points, the derivative w.r.t. the first argument (compared with jax.grad)."""
+jax smooth helpers (act_tanh, smooth_max/min/abs/round, ks_max/min, with explicit and default parameters): only
+identities that are exactly rational are specified - tanh is an uninterpreted odd function of its argument except
+tanh(0) = 0 and |t| >= 32 -> +-1, log-sum-exp an uninterpreted symmetric function of the scaled differences (exp
+underflow exact); TLC proves each exported identity (value and derivative of a linear combination of terms) for a family
+of such functions and exports the rational value; the driver compares the value, the jax.grad derivative and the
+complex-step derivative (where the function accepts complex arguments), and the KS gradient where it is rational."""
 import os
 from fractions import Fraction as F
 
@@ -177,14 +181,22 @@ def _smooth(s, v):
         return float(getattr(jf, t['fn'])(*pos(t)))
 
     def grad(t, arg):
-        key = (t['fn'], arg, t['given'])
+        # one compilation per (function, number of arguments passed): both derivatives of smooth_max / smooth_min at once
+        two = t['fn'] in ('smooth_max', 'smooth_min')
+        key = (t['fn'], t['given'])
         if key not in _GRADS:
-            _GRADS[key] = jax.jit(jax.grad(getattr(jf, t['fn']), argnums=arg))
-        return _GRADS[key](*pos(t))
+            _GRADS[key] = jax.jit(jax.grad(getattr(jf, t['fn']), argnums=(0, 1) if two else 0))
+        g = _GRADS[key](*pos(t))
+        return g[arg] if two else g
 
     def cs(t, arg):
-        a0 = float(fr(t['args'][arg + (1 if t['fn'] in ('ks_max', 'ks_min') else 0)]))
-        r = complex(getattr(jf, t['fn'])(*pos(t, {arg: complex(a0, H)})))
+        ks = t['fn'] in ('ks_max', 'ks_min')
+        a0 = float(fr(t['args'][arg + (1 if ks else 0)]))
+        repl = {arg: complex(a0, H)}
+        if t['fn'] in ('smooth_max', 'smooth_min'):
+            # the other one of x, y is passed as a complex number with a zero imaginary part (same compiled signature)
+            repl[1 - arg] = complex(float(fr(t['args'][1 - arg])), 0.0)
+        r = complex(getattr(jf, t['fn'])(*pos(t, repl)))
         return r.imag / H
 
     bad = []
@@ -280,27 +292,25 @@ def _report(ctx, s, v, o):
         ctx.violation(s, v, o['bad'][:4], '%s: %s' % (k, what), info={'clause': what, 'observed': o['bad'], 'forms': sorted({b[0] for b in o['bad']})})
 
 
-def replay(ctx):
-    import json
-    with open(ctx.replay) as f:
-        rec = json.load(f)
-    s, v = rec['scenario'], rec['expected']
-    o = _worker([{'s': s, 'v': v}])[0]
-    _report(ctx, s, v, o)
-    ctx.impl = ctx.evaluations = 1
-    ctx.note_nontrivial(('replay', s['kind']))
-    ctx.sample({'scenario': s, 'spec': v, 'observed': o})
-    ctx.rule = 'replay of one stored scenario'
-    ctx.exhaustive = False
+ARRAY_FORMS = {'array', 'array2d', 'strided', '0-d array'}
 
 
-def run(ctx):
-    ctx.register_predicates({})
-    if getattr(ctx, 'replay', None):
-        return replay(ctx)
-    thorough = ctx.tier == 'thorough'
-    dirs = '{-2, -1, 0, 1, 2}' if thorough else '{-1, 0, 2}'
-    scales = '{0, -36, -41, -300, -7, 30}' if thorough else '{0, -36, -41, -300}'
+def _pred_array_sign(s, info):
+    """NumPy-2 array branch of cs_safe.abs: sign(x).real = re/|x| instead of sign(x.real) (real part not >> step)."""
+    return s.get('kind') == 'abs' and s['e'] < 0 and any(d != 0 and x != 0 for x, d in zip(s['x'], s['dx'])) and \
+        set(info.get('forms', ['?'])) <= ARRAY_FORMS
+
+
+def _pred_scalar_kink(s, info):
+    """scalar branch of cs_safe.abs at x = 0 with a negative imaginary step: returns -h j (array branch: +h j)."""
+    return s.get('kind') == 'abs' and s['n'] == 1 and s['x'][0] == 0 and s['dx'][0] < 0 and \
+        set(info.get('forms', ['?'])) <= {'scalar', 'numpy-scalar'}
+
+
+PREDICATES = {'C30-abs-array-sign-of-real-part': _pred_array_sign, 'C30-abs-scalar-kink-negative-step': _pred_scalar_kink}
+
+
+def tlc_scenarios(ctx, thorough):
     suffix = 'Thorough' if thorough else 'Quick'
     cfg = ctx.write_cfg('CsSafe.cfg', '''CONSTANTS
   Kinds = {"abs", "norm", "arctan2", "smooth"}
@@ -320,6 +330,36 @@ INVARIANT Export
     exps = r.exports('EXP')
     ctx.coverage_actions['Choose'] = len(exps)
     ctx.require_actions(['Choose'])
+    return exps
+
+
+def replay(ctx):
+    import json
+    with open(ctx.replay) as f:
+        rec = json.load(f)
+    s = rec['scenario']
+    match = [e for e in tlc_scenarios(ctx, True) if e['s'] == s]
+    if not match:
+        raise MachineryError('replay scenario is not in the specification scope')
+    v = match[0]['v']
+    o = pmap(_worker, [[{'s': s, 'v': v}]], nproc=1)[0][0]
+    _report(ctx, s, v, o)
+    ctx.impl = ctx.evaluations = 1
+    ctx.note_nontrivial(('replay', s['kind']))
+    ctx.sample({'scenario': s, 'spec': v, 'observed': o})
+    ctx.rule = 'replay of one stored scenario against the expectation TLC computes for it'
+    ctx.exhaustive = False
+    print('replay outcome: %s' % json.dumps(o, default=str)[:600])
+
+
+def run(ctx):
+    ctx.register_predicates(PREDICATES)
+    if getattr(ctx, 'replay', None):
+        return replay(ctx)
+    thorough = ctx.tier == 'thorough'
+    dirs = '{-2, -1, 0, 1, 2}' if thorough else '{-1, 0, 2}'
+    scales = '{0, -36, -41, -300, -7, 30}' if thorough else '{0, -36, -41, -300}'
+    exps = tlc_scenarios(ctx, thorough)
     kinds = {}
     for e in exps:
         kinds.setdefault(e['s']['kind'], []).append(e)
@@ -344,7 +384,7 @@ INVARIANT Export
     numpy_items = kinds['abs'] + kinds['norm'] + kinds['arctan2']
     n = min(2, nproc())         # the NumPy scenarios are cheap: process start-up dominates
     chunks = [numpy_items[i::n] for i in range(n)]
-    fam = {'act_tanh': 0, 'smooth_max': 1, 'smooth_min': 1, 'smooth_abs': 2, 'smooth_round': 2, 'ks_max': 3, 'ks_min': 4}
+    fam = {'act_tanh': 0, 'smooth_max': 1, 'smooth_min': 1, 'smooth_abs': 2, 'smooth_round': 2, 'ks_max': 3, 'ks_min': 3}
     groups = {}
     for e in kinds['smooth']:
         groups.setdefault(fam[e['s']['terms'][-1]['fn']], []).append(e)
